@@ -1,5 +1,5 @@
 Require Extraction.
 Require Import ExtrOcamlBasic.
 From GoPdf.Base Require Import WireAnchor.
-From GoPdf.C11 Require Import Copier Checker StreamCrypt.
-Separate Extraction wire_anchor run_calls init fuel_bound iso_ok canon target_graph puts trans next predict_cipher.
+From GoPdf.C11 Require Import Copier Checker StreamCrypt History.
+Separate Extraction wire_anchor run_calls init fuel_bound iso_ok canon target_graph puts trans next predict_cipher run_hist hinit hist_fuel hst hres hputs.
